@@ -121,6 +121,20 @@ def run(ck):
     if not t.ok:
         raise vlib.Inconclusive("ShGlobFS: the contract violates one of its own laws:\n" + (t.violation or t.raw_tail))
     vecs = t.vecs.get("VEC", [])
+    ck.notes["bfs_vectors"] = len(vecs)
+    if ck.tier == "quick":
+        # seeded part: random (tree, word, option set) triples from the wide menus of the thorough tier
+        ts = vlib.run_tlc("ShGlobFS", "ShGlobFS.sim.cfg", simulate=150, depth=4, seed=ck.seed, timeout=900)
+        ck.add_tlc(ts)
+        if not ts.ok:
+            raise vlib.Inconclusive("ShGlobFS (simulation): the contract violates one of its own laws:\n" + (ts.violation or ts.raw_tail))
+        seen = set(key_of(v) for v in vecs)
+        for v in ts.vecs.get("VEC", []):
+            v["tree"] += 100   # the wide menu has its own numbering of scratch directories
+            if key_of(v) not in seen:
+                seen.add(key_of(v))
+                vecs.append(v)
+        ck.notes["simulated_vectors_new"] = len(vecs) - ck.notes["bfs_vectors"]
     ck.cov["exhaustive"] = True
     ck.cov["rule"] = ("one vector per distinct state of ShGlobFS (TLC BFS): tree x glob word x option set; non-trivial = "
                       "the word has an unquoted metacharacter, globbing is on and at least one path matched")
